@@ -18,7 +18,7 @@ from . import coqlit as L
 from .core import Relation, err_kind
 
 PROP = "C04"
-CLAIMED = False
+CLAIMED = True
 COQ_MODULES = ["C04_Check", "C04_Proofs", "C04_ProofsSet", "C04_ProofsFile", "C04_ProofsSpec", "C04_ProofsAnc", "C04_Legacy"]
 PROPERTY_MODULE = "C04_Property"
 ALLOWED_AXIOMS = []
